@@ -9,6 +9,8 @@ P = {
          "Rocq/Coq proof + source-to-Gallina translation of Level.Enabled and the entry-point table + model/implementation correspondence (vm_compute)", "DESIGN.md §4 C01"),
  "C03": ("Refinement proved by induction over ANY sequence of the eleven writer operations: the code-level state (lazily created dualWriter, logwr cells, leveled map) denotes exactly the documented configuration (set replaces, add appends, remove deletes the first registration, reset restores defaults); routing of the code equals documented routing on that denotation; delivery writes once to each selected member in order, nothing to others, and tells a LevelSettable member immediately before its Write. Correspondence: random (and in thorough tier exhaustive length<=3) op sequences as methods and New options over a 6-writer pool, probes at 10 severities incl. registered ones and the stdout/stderr fall-back observed through redirected file descriptors; direct oracle = denotation re-implemented in Go.",
          "Rocq/Coq refinement proof (induction over op sequences) + model/implementation correspondence (vm_compute)", "DESIGN.md §4 C03"),
+ "C10": ("Tree model (loggers by creation index; name index per parent; every Entry field) with theorems for New lookup/creation with inheritance of level and format only, With* creating a child of the receiver, WithSkip(n) keeping one child per n (idempotence), Set* returning the receiver, ISOLATION of every other logger for one step and for any history (induction), well-formedness (parent older than child => acyclic) of every reachable world, Root parentless, Each = the subtree exactly once with depths, package New detached/coloured/at the default level. Correspondence: random histories of 1..40 operations over all With/Set/New forms incl. writers and the default logger; after every op a per-op oracle (lookup, inheritance, fresh child, isolation of all others), at the end Parent/Root/Each/Sublogger against the creation history, and the model is evaluated on the same history (all fields of all loggers compared).",
+         "Rocq/Coq proof (invariants and isolation by induction over histories) + model/implementation correspondence (vm_compute)", "DESIGN.md §4 C10"),
  "C11": ("Three-state machine for every list of mode calls, mutual-exclusion invariant over every reachable logger tree, getter/shape agreement, locality - proved in Coq about Model/Mode.v and Model/Tree.v; correspondence: exhaustive short call sequences + random histories on the real loggers, evaluated by vm_compute; direct oracle = the statement's machine.",
          "Rocq/Coq proof (induction over call lists and histories) + model/implementation correspondence (vm_compute)", "DESIGN.md §4 C11"),
 }
